@@ -93,6 +93,23 @@ def gain_case(rec, seedt, backend, cuda):
     except ValueError as e:
         rec.blocked(f"analysis rejected: {e}")
         return
+    if exact and seedt[-1] % 2 == 0:
+        # History: the caller refills the SAME two-channel buffer with another record / gain and
+        # analyses again (same analyzer options): the estimate must follow the current contents.
+        buf = np.ascontiguousarray(np.vstack([x, y]))
+        first = api.attempt(rec, lambda: SpectrumAnalyzer(buf, fs, **kw).compute())
+        g2 = -g * 4.0
+        x2 = gen.record(rng, N, "white")
+        buf[0, :] = x2
+        buf[1, :] = g2 * x2
+        again = api.attempt(rec, lambda: SpectrumAnalyzer(buf, fs, **kw).compute())
+        if first is not None and again is not None:
+            rec.count(f"refill_histories[{'numba' if backend == 'auto' else backend}]")
+            v2 = (np.asarray(again.L) > order + 1) & (again.XX > 1e-24 * np.max(again.XX))
+            if np.any(v2) and float(np.max(np.abs(again.Hxy[v2] - g2))) > 1e-9 * abs(g2):
+                rec.violation(f"stale-after-inplace-refill:{backend}",
+                              f"buffer refilled in place with y={g2!r}*x: Hxy still reports "
+                              f"{complex(again.Hxy[v2][0])!r} (first contents had gain {g!r})")
     L = np.asarray(r.L, dtype=float)
     valid = (np.asarray(r.L) > order + 1) & (r.XX > 1e-24 * np.max(r.XX))
     if not np.any(valid):
